@@ -9,6 +9,7 @@ pub fn run(kind: &str, i: &Input) -> String {
         "vm_op" => vm_op(i),
         "asm_bytes" => asm_bytes(i),
         "vm_prog" => vm_prog(i),
+        "hash_addrs" => hash_addrs(i),
         "lock_stress" => lock_stress(i),
         "vm_io" => vm_io(i),
         "vm_mapped" => vm_mapped(i),
@@ -560,4 +561,39 @@ fn lock_stress(i: &Input) -> String {
     for h in hs { bad_return |= h.join().unwrap(); }
     let fin = lock.apply(|v| *v);
     format!("result=ok\nfinal={fin}\nexpected={}\nbad_return={bad_return}\n", threads * n)
+}
+
+/// addresses `a0`, `a1`, .. (32 bytes each), optional `salt`: address helper on every rotation/reversal of the input
+/// vs SHA-256 of the ascending concatenation
+fn hash_addrs(i: &Input) -> String {
+    let mut addrs = vec![];
+    let mut k = 0;
+    while i.contains_key(&format!("a{k}")) {
+        let mut a = [0u8; 32];
+        for (j, b) in bytes(get(i, &format!("a{k}"))).into_iter().enumerate().take(32) { a[j] = b; }
+        addrs.push(ContentAddress(a)); k += 1;
+    }
+    let salt: Option<[u8; 32]> = i.get("salt").map(|s| { let mut a = [0u8; 32]; for (j, b) in bytes(s).into_iter().enumerate().take(32) { a[j] = b; } a });
+    let run = |v: &Vec<ContentAddress>| -> ContentAddress {
+        let mut v = v.clone();
+        match &salt {
+            Some(s) => essential_hash::contract_addr::from_predicate_addrs_slice(&mut v, s),
+            None => essential_hash::solution_set_addr::from_solution_addrs_slice(&mut v),
+        }
+    };
+    let base = run(&addrs);
+    let mut same = true;
+    let mut v = addrs.clone();
+    for _ in 0..addrs.len().max(1) {
+        v.rotate_left(1.min(v.len()));
+        if run(&v) != base { same = false; }
+        let mut r = v.clone(); r.reverse();
+        if run(&r) != base { same = false; }
+    }
+    let mut sorted = addrs.clone();
+    sorted.sort();
+    let mut pre: Vec<u8> = sorted.iter().flat_map(|a| a.0).collect();
+    if let Some(s) = &salt { pre.extend_from_slice(s); }
+    let reference = ContentAddress(essential_hash::hash_bytes(&pre));
+    format!("result=ok\norder_independent={same}\nmatches_reference={}\n", base == reference)
 }
